@@ -87,6 +87,11 @@ def literal_ops(n, r, c):
     for rr, cc in sorted({(r, c), (r + 1, c), (c, r), (1, c), (r, 1)}):
         lit("a2", ("a2", [[0.5 * (i - j) for j in range(cc)] for i in range(rr)]), (rr, cc))
         lit("l2", ("l2", [[float(i * cc + j) / 4 for j in range(cc)] for i in range(rr)]), (rr, cc))
+    # the same logical array in other memory layouts / dtypes (non-symmetric values): NumPy semantics
+    # and therefore the constraints must not depend on strides, order or dtype
+    for lay in R.LAYOUTS[1:]:
+        lit("a1", ("a1", [float((3 * i) % 5 - 1) for i in range(n)], lay), (n,))
+        lit("a2", ("a2", [[float((2 * i + 3 * j) % 7 - 2) for j in range(c)] for i in range(r)], lay), (r, c))
     lit("aN", ("aN", 3, n), (n, 1, 1))
     return L
 
@@ -317,7 +322,7 @@ def run(ctx) -> core.Report:
                            "operators for several sizes, then violation / is_satisfied / SciPy dicts of every constraint that was "
                            "created, probed at seeded dyadic points; non-trivial = distinct (operand pair, relation) cells that "
                            "produce at least one constraint")
-    shapes = [(3, 2, 3), (1, 1, 1), (2, 3, 2)] + ([(4, 2, 2), (6, 3, 4), (5, 1, 4)] if thorough else [])
+    shapes = [(3, 2, 3), (1, 1, 1), (2, 3, 3)] + ([(4, 2, 2), (6, 3, 4), (5, 1, 4)] if thorough else [])
     n_points = 4 if thorough else 2
     cases = []
     for n, r, c in shapes:
@@ -516,7 +521,7 @@ def replay(payload) -> bool:
         return False
     # rebuild the world of the same shape; operands are addressed by their index when recorded, else by kind
     shape = f.get("shape")
-    cands = [tuple(shape)] if shape else [(3, 2, 3), (1, 1, 1), (2, 3, 2), (4, 2, 2), (6, 3, 4), (5, 1, 4)]
+    cands = [tuple(shape)] if shape else [(3, 2, 3), (1, 1, 1), (2, 3, 3), (4, 2, 2), (6, 3, 4), (5, 1, 4)]
     rel = f["rel"]
     for n, r, c in cands:
         W = World(n, r, c)
